@@ -15,7 +15,8 @@ EXTENDS Integers, Sequences, FiniteSets, TLC, Json
 
 CONSTANTS NumCtx, Parallel, BatchSize, MultiUser, CanShift,
           MaxPrompt, MaxReqs, MaxSteps, Keeps, Predicts,
-          CodeAsIs     \* TRUE: the shift-failure path erases with Remove(slot, 0, -1), which removes nothing
+          CodeAsIs,    \* TRUE: the shift-failure path erases with Remove(slot, 0, -1), which removes nothing
+          UseStops     \* TRUE: requests may carry a stop sequence (of tokens; every token decodes to one piece)
 
 Vocab == 4          \* tokens 1..3, 0 = end of sequence
 Tok == 1..(Vocab - 1)
@@ -72,7 +73,7 @@ Pick(p) ==
 SubmitOk(p0, keep) == /\ \E i \in Slots : ~seqs[i].live
                       /\ Free # {}
                       /\ ~Removed(p0, keep)
-Submit(p0, keep, predict) ==
+Submit(p0, keep, predict, stop) ==
   /\ SubmitOk(p0, keep)
   /\ LET p    == Truncated(p0, keep)
          pk   == Pick(p)
@@ -84,8 +85,9 @@ Submit(p0, keep, predict) ==
      IN /\ slot' = [slot EXCEPT ![s] = [inputs |-> SubSeq(base, 1, past), inUse |-> TRUE, used |-> clock]]
         /\ kv' = [kv EXCEPT ![s] = SubSeq(kvb, 1, past)]
         /\ seqs' = [seqs EXCEPT ![idx] = [live |-> TRUE, id |-> nreq + 1, slot |-> s, inputs |-> SubSeq(p, past + 1, Len(p)),
-                                          keep |-> EffKeep(p0, keep), predict |-> predict, predicted |-> 0, out |-> <<>>]]
-        /\ hist' = Append(hist, [op |-> "submit", prompt |-> p0, keep |-> keep, predict |-> predict])
+                                          keep |-> EffKeep(p0, keep), predict |-> predict, predicted |-> 0, out |-> <<>>,
+                                          stop |-> stop, held |-> <<>>]]
+        /\ hist' = Append(hist, [op |-> "submit", prompt |-> p0, keep |-> keep, predict |-> predict, stop |-> stop])
   /\ clock' = clock + 1 /\ nreq' = nreq + 1 /\ steps' = steps + 1
   /\ UNCHANGED <<nextSeq, outs>>
 
@@ -102,7 +104,7 @@ Fill(st, idx, left) ==
        IN IF ~q.live THEN Fill(st, nxt, left - 1)
           ELSE IF q.predict > 0 /\ q.predicted >= q.predict
             THEN Fill([st EXCEPT !.seqs[idx] = NoSeq, !.slot[q.slot].inUse = FALSE,
-                                 !.done = Append(@, [id |-> q.id, out |-> q.out, reason |-> "length"])], nxt, left - 1)
+                                 !.done = Append(@, [id |-> q.id, out |-> q.out \o q.held, reason |-> "length"])], nxt, left - 1)
           ELSE LET rec == st.slot[q.slot].inputs
                    \* context shift: only when nothing of this sequence is pending (it has one input then)
                    needShift == Len(rec) + 1 > NumCtx /\ st.n + 1 <= BatchSize /\ q.inputs # <<>>
@@ -136,10 +138,23 @@ After(st, idx) ==
             IN IF q.inputs # <<>> THEN After(st1, idx + 1)
                ELSE LET tok == F(kvn)            \* what the model is shown is what the cache holds
                         n1  == q.predicted + 1
+                        \* stop sequences (processBatch): the new piece joins the pieces held back; a stop found ends the
+                        \* request, the pieces from its start on are dropped and the slot's RECORD is cut by the stop's
+                        \* tokens that were already decoded -- their cache cells stay until the next LoadCacheSlot erases
+                        \* everything behind the common prefix; a possible beginning of the stop holds everything back
+                        h2  == q.held \o <<tok>>
+                        ls  == Len(q.stop)
+                        hit == ls > 0 /\ Len(h2) >= ls /\ SubSeq(h2, Len(h2) - ls + 1, Len(h2)) = q.stop
+                        holds == ls > 1 /\ \E k \in 1..Min(Len(h2), ls - 1) : SubSeq(h2, Len(h2) - k + 1, Len(h2)) = SubSeq(q.stop, 1, k)
                     IN IF tok = 0
                          THEN After([st1 EXCEPT !.seqs[idx] = NoSeq, !.slot[s].inUse = FALSE,
-                                                !.done = Append(@, [id |-> q.id, out |-> q.out, reason |-> "stop"])], idx + 1)
-                         ELSE After([st1 EXCEPT !.seqs[idx].predicted = n1, !.seqs[idx].out = Append(q.out, tok),
+                                                !.done = Append(@, [id |-> q.id, out |-> q.out \o q.held, reason |-> "stop"])], idx + 1)
+                       ELSE IF hit
+                         THEN After([st1 EXCEPT !.seqs[idx] = NoSeq, !.slot[s].inUse = FALSE,
+                                                !.slot[s].inputs = SubSeq(rec, 1, Len(rec) + 1 - ls),
+                                                !.done = Append(@, [id |-> q.id, out |-> q.out \o SubSeq(h2, 1, Len(h2) - ls), reason |-> "stop"])], idx + 1)
+                         ELSE After([st1 EXCEPT !.seqs[idx].predicted = n1, !.seqs[idx].out = IF holds THEN q.out ELSE q.out \o h2,
+                                                !.seqs[idx].held = IF holds THEN h2 ELSE <<>>,
                                                 !.seqs[idx].inputs = <<tok>>], idx + 1)
 
 BatchOk == \E i \in Slots : seqs[i].live
@@ -162,15 +177,19 @@ StreamA == <<1, 2, 3, 1, 2, 3, 1, 2, 2, 1>>
 StreamB == <<1, 2, 1, 3, 3, 2, 1, 1, 3, 2>>
 Prompts == {SubSeq(StreamA, 1, n) : n \in 1..MaxPrompt} \cup {SubSeq(StreamB, 1, n) : n \in 1..MaxPrompt}
            \cup {SubSeq(StreamA, 1, k) \o <<3, 1>> : k \in 1..3} \cup {<<3>>, <<2, 2>>}
+StopSet == {<<>>, <<2, 1>>, <<1, 2>>, <<3>>, <<2, 2>>}
+Stops == IF UseStops THEN StopSet ELSE {<<>>}
 KeepVal(k) == IF k = 9 THEN 0 - 1 ELSE k      \* cfg files cannot hold negative numbers: 9 stands for "keep all" (-1)
 Next == /\ steps < MaxSteps
-        /\ \/ nreq < MaxReqs /\ \E p \in Prompts, k \in Keeps, n \in Predicts : Submit(p, KeepVal(k), n)
+        /\ \/ nreq < MaxReqs /\ \E p \in Prompts, k \in Keeps, n \in Predicts, sq \in Stops : Submit(p, KeepVal(k), n, sq)
            \/ Batch
 Spec == Init /\ [][Next]_vars
 
 \* ---------------------------------------------------------------- properties (design level)
 \* (a) between batches the cache of every slot holds exactly the slot's record
-CacheMatchesRecord == \A i \in Slots : kv[i] = slot[i].inputs
+\* (after a stop sequence the cache of the now idle slot may still hold the cells of the dropped stop tokens)
+CacheMatchesRecord == \A i \in Slots : /\ Len(kv[i]) >= Len(slot[i].inputs) /\ SubSeq(kv[i], 1, Len(slot[i].inputs)) = slot[i].inputs
+                                        /\ (slot[i].inUse => kv[i] = slot[i].inputs)
 \* (b) a slot in use belongs to exactly one live sequence
 SlotExclusive == \A i, j \in Slots : (seqs[i].live /\ seqs[j].live /\ seqs[i].slot = seqs[j].slot) => i = j
 InUseIffLive == \A s \in Slots : slot[s].inUse <=> \E i \in Slots : seqs[i].live /\ seqs[i].slot = s
